@@ -277,3 +277,13 @@ def run(ctx: Ctx):
     c.check_path_terms()
     c.check_write_order()
     return EXPLANATION, ASSUMPTIONS
+
+
+def run_for_roundtrip(ctx: Ctx):
+    """The clauses of C18 the lossless round trip (C01) rests on: the directory flows unchanged, paths relative iff given."""
+    ctx.rule("R18.1", "audio_dir flows from io.save/io.load into every collection's recording adapter", 17)
+    ctx.rule("R18.2", "stored path relative iff directory given (error not swallowed); loaded path joined iff given", 5)
+    c = C18(ctx)
+    c.check_hops()
+    c.check_constructors()
+    c.check_path_terms()
